@@ -1,6 +1,7 @@
 package eng
 
 import (
+	"go/ast"
 	"go/token"
 
 	"golang.org/x/tools/go/ssa"
@@ -21,6 +22,7 @@ import (
 // SetKnown registers the function names the rules refer to and recomputes the
 // list of anchor-level functions.
 func (p *Prog) SetKnown(known map[string]bool) {
+	p.BuildAliases()
 	p.known = known
 	p.transparent = map[*ssa.Function]bool{}
 	p.allMod = p.ModFuncs
@@ -67,6 +69,9 @@ func (p *Prog) SetKnown(known map[string]bool) {
 		}
 		if known[name] || static[fn] == 0 || valueUse[fn] {
 			continue
+		}
+		if ast.IsExported(fn.Name()) {
+			continue // part of the API: callable from outside in contexts of its own
 		}
 		cand[fn] = true
 	}
@@ -412,6 +417,15 @@ func ResolveAll(v ssa.Value) []ssa.Value {
 					}
 				}
 			}
+		case *ssa.UnOp:
+			// a result spilled to a local around rundefers (`*t0 = v;
+			// rundefers; t9 = *t0; return t9`): the value stored in this block
+			if len(ctx) > 0 {
+				if sv := spilledValue(x); sv != nil {
+					rec(sv, d+1, ctx)
+					return
+				}
+			}
 		}
 		out = append(out, v)
 	}
@@ -518,4 +532,38 @@ func LiftTo(fn *ssa.Function, in ssa.Instruction) []ssa.Instruction {
 	}
 	rec(in, 0)
 	return out
+}
+
+// spilledValue: ld loads a non-escaping local that was stored earlier in the
+// same block (the shape go/ssa gives to results of functions with defers);
+// returns the stored value.
+func spilledValue(ld *ssa.UnOp) ssa.Value {
+	if ld.Op != token.MUL {
+		return nil
+	}
+	al, ok := ld.X.(*ssa.Alloc)
+	if !ok || al.Heap {
+		return nil
+	}
+	for _, r := range Referrers(al) {
+		switch x := r.(type) {
+		case *ssa.Store:
+			if x.Addr != ssa.Value(al) {
+				return nil
+			}
+		case *ssa.UnOp:
+		default:
+			return nil
+		}
+	}
+	var last ssa.Value
+	for _, in := range ld.Block().Instrs {
+		if in == ssa.Instruction(ld) {
+			break
+		}
+		if st, ok := in.(*ssa.Store); ok && st.Addr == ssa.Value(al) {
+			last = st.Val
+		}
+	}
+	return last
 }
